@@ -5,7 +5,7 @@ from .. import core, gen, rdpfam, detfam
 from . import c12, c13
 
 PROP_FILE = 'Knee/Props/C08.lean'
-PROP_FILES = ['Knee/Props/C08.lean', 'Knee/Props/C08E.lean', 'Knee/Props/C08F.lean']
+PROP_FILES = ['Knee/Props/C08.lean', 'Knee/Props/C08E.lean', 'Knee/Props/C08F.lean', 'Knee/Props/C08G.lean']
 SIMPL = ['rdp', 'rdp_fixed', 'grdp', 'mp_grdp', 'min_point_rdp']
 RULE = ('the pipeline exactly as demos/*.py compose it: simplifier (5) -> multi_knee of a detector module (5) on the reduced curve -> filter_worst_knees -> '
         'filter_corner_knees -> filter_clusters (4 linkages x 4 ranking modes incl. hull, the demos\' default) -> rdp.mapping, on dyadic families, float curves, '
